@@ -69,6 +69,35 @@ def prop_table():
     return '\n'.join(rows)
 
 
+def theorem_lists():
+    """per property: the claim (MANIFEST level text) and the names of the statements in its Properties file, grouped by the
+    section comments of that file"""
+    man = json.load(open(os.path.join(V, 'MANIFEST.json')))
+    claimed = {c['property_id']: c for c in man['checks']}
+    out = []
+    for i in range(1, 21):
+        pid = 'C%02d' % i
+        src = open(os.path.join(V, 'coq', 'Properties', pid + '.v')).read()
+        out.append('**%s** (`coq/Properties/%s.v`). %s' % (pid, pid, claimed[pid]['level_claimed']['text'] if pid in claimed else ''))
+        out.append('')
+        groups = []
+        cur = ['(statements)', []]
+        for m in re.finditer(r'^\(\* -{2,}=*\s*(.*?)\*\)\s*$|^\(\* ={2,}\s*(.*?)\*\)\s*$|^\s*(?:Theorem|Lemma|Corollary|Example)\s+([A-Za-z0-9_\']+)', src, re.M | re.S):
+            if m.group(3):
+                cur[1].append(m.group(3))
+            else:
+                if cur[1]:
+                    groups.append(cur)
+                title = (m.group(1) or m.group(2) or '').strip()
+                cur = [' '.join(title.split())[:160], []]
+        if cur[1]:
+            groups.append(cur)
+        for title, names in groups:
+            out.append('* %s: %s' % (title, ', '.join('`%s`' % n for n in names)))
+        out.append('')
+    return '\n'.join(out)
+
+
 def seed_table():
     rows = []
     for d in sorted(glob.glob(os.path.join(V, 'seeded', 'C*-*'))):
@@ -87,7 +116,7 @@ def seed_table():
 
 def main():
     tmpl = open(os.path.join(V, 'harness', 'appendixE.tmpl.md')).read()
-    text = tmpl.replace('@@PROPTABLE@@', prop_table()).replace('@@SEEDTABLE@@', seed_table())
+    text = tmpl.replace('@@PROPTABLE@@', prop_table()).replace('@@SEEDTABLE@@', seed_table()).replace('@@THEOREMS@@', theorem_lists())
     if '--write' in sys.argv:
         p = os.path.join(V, 'DESIGN.md')
         s = open(p).read()
